@@ -27,10 +27,11 @@ def expand_name(line: str, char_pos: int) -> str:
     """
     # The order here is important.
     # WORD will capture substrings in logical and strings
+    # STRING finds the literals left to right, an apostrophe inside a
+    # double-quoted literal does not open another one
     regexs = [
         FRegex.LOGICAL,
-        FRegex.SQ_STRING,
-        FRegex.DQ_STRING,
+        FRegex.STRING,
         FRegex.WORD,
         FRegex.NUMBER,
     ]
